@@ -25,6 +25,7 @@ import (
 	"fmt"
 	"os"
 	"os/exec"
+	"path"
 	"path/filepath"
 	"sort"
 	"strconv"
@@ -64,8 +65,11 @@ type c18Case struct {
 	Pre         []c18Pre `json:"pre,omitempty"`
 	NoSameOwner bool     `json:"no_same_owner"`
 	NoSamePerms bool     `json:"no_same_perms"`
-	Via         string   `json:"via"`            // untar | index | cli | cli-index
-	Dest        string   `json:"dest,omitempty"` // what is at the destination path before the run: "" = a directory | absent | file
+	Via         string   `json:"via"`                // untar | index | cli | cli-index
+	Discover    bool     `json:"discover,omitempty"` // unpack with the CLI under strace and report every path a mutating call names
+	Planted     string   `json:"planted,omitempty"`  // the intermediate path (relative to dest) at which a link was planted
+	Touched     []string `json:"touched,omitempty"`  // Discover: paths relative to dest ("" = dest itself)
+	Dest        string   `json:"dest,omitempty"`     // what is at the destination path before the run: "" = a directory | absent | file
 	Nameless    bool     `json:"nameless"`
 	// filled by the run
 	Class   string    `json:"class,omitempty"` // ok | error | panic
@@ -75,6 +79,7 @@ type c18Case struct {
 	DirTime []string  `json:"dir_mtime_changed,omitempty"` // directories of which only the mtime changed
 	After   []c18Node `json:"-"`
 	Moat    string    `json:"-"`
+	Broken  bool      `json:"-"` // the correspondence with the model failed on this case
 	Nodes   string    `json:"-"` // what ArchiveDecoder.Next yields: "<end|error> k:hexname,..."
 }
 
@@ -282,6 +287,7 @@ func c18Sandbox(moat string, c *c18Case) (sb, dest string, err error) {
 			break
 		}
 		q := filepath.Join(dest, pr.Path)
+		os.MkdirAll(filepath.Dir(q), 0755)
 		switch pr.Kind {
 		case "d":
 			err = os.MkdirAll(q, 0755)
@@ -443,9 +449,18 @@ func c18RunOne(work string, i int, c *c18Case) {
 		return f
 	}
 	runCLI := func(args ...string) error {
-		ctx, cancel := context.WithTimeout(context.Background(), c18HangAfter)
+		limit := c18HangAfter
+		if c.Discover {
+			limit *= 4
+		}
+		ctx, cancel := context.WithTimeout(context.Background(), limit)
 		defer cancel()
-		cmd := exec.CommandContext(ctx, os.Getenv("VH_DESYNC"), args...)
+		bin := os.Getenv("VH_DESYNC")
+		if c.Discover {
+			args = append([]string{"-f", "-qq", "--seccomp-bpf", "-e", "trace=%file", "-s", "65535", "-o", filepath.Join(aux, "trace.txt"), bin}, args...)
+			bin = os.Getenv("VH_STRACE")
+		}
+		cmd := exec.CommandContext(ctx, bin, args...)
 		cmd.Dir = aux
 		cmd.Stdin = strings.NewReader("")
 		cmd.Cancel = func() error { return cmd.Process.Signal(syscall.SIGQUIT) } // goroutine dump of a hung CLI
@@ -475,9 +490,20 @@ func c18RunOne(work string, i int, c *c18Case) {
 		rerr = c18Timed(func() error {
 			return desync.UnTarIndex(context.Background(), desync.NewLocalFS(dest, opts), idx, st, 3, desync.NullProgressBar{})
 		})
-	case "cli":
+	case "cli", "strace":
 		os.WriteFile(filepath.Join(aux, "a.catar"), catar, 0644)
 		rerr = runCLI(append([]string{"untar"}, append(cliFlags(), filepath.Join(aux, "a.catar"), dest)...)...)
+		if c.Discover {
+			tr, _ := os.ReadFile(filepath.Join(aux, "trace.txt"))
+			c.Touched = nil
+			for _, p := range c18TraceTouched(string(tr), dest) {
+				c.Touched = append(c.Touched, strings.TrimPrefix(strings.TrimPrefix(p, dest), "/"))
+			}
+			if len(tr) == 0 && rerr != nil {
+				c.Class, c.Err = "harness", "strace produced no trace: "+rerr.Error()
+				return
+			}
+		}
 	case "cli-index":
 		idx, _, err := mkIndex()
 		if err != nil {
@@ -564,6 +590,7 @@ type c18Line struct {
 	After   []c18Node `json:"after"`
 	Moat    string    `json:"moat"`
 	Nodes   string    `json:"nodes"`
+	Touched []string  `json:"touched"`
 }
 
 func c18HexAll(l []string) []string {
@@ -603,6 +630,7 @@ func c18Child(a vh.Args) error {
 		os.Chdir("/")
 		work = "/"
 		os.Setenv("VH_DESYNC", "/desync")
+		os.Setenv("VH_STRACE", "/strace")
 	}
 	for i := range batch {
 		c := &batch[i]
@@ -616,7 +644,7 @@ func c18Child(a vh.Args) error {
 			after[k] = n
 			after[k].P = hx(n.P)
 		}
-		line, _ := json.Marshal(c18Line{I: i, Class: c.Class, Err: hx(c.Err), Outside: c18HexAll(c.Outside), Changed: c18HexAll(c.Changed), DirTime: c18HexAll(c.DirTime), After: after, Moat: c.Moat, Nodes: c.Nodes})
+		line, _ := json.Marshal(c18Line{I: i, Class: c.Class, Err: hx(c.Err), Outside: c18HexAll(c.Outside), Changed: c18HexAll(c.Changed), DirTime: c18HexAll(c.DirTime), After: after, Moat: c.Moat, Nodes: c.Nodes, Touched: c18HexAll(c.Touched)})
 		out.Write(append(line, '\n'))
 		if c.Class == "hang" {
 			out.Close()
@@ -665,6 +693,7 @@ func c18RunBatch(a vh.Args, cases []*c18Case, base int) error {
 				if json.Unmarshal(sc.Bytes(), &l) == nil {
 					c := cases[start+l.I]
 					c.Class, c.Err, c.Outside, c.Changed, c.DirTime, c.After, c.Moat, c.Nodes = l.Class, unhx(l.Err), c18UnhexAll(l.Outside), c18UnhexAll(l.Changed), c18UnhexAll(l.DirTime), l.After, l.Moat, l.Nodes
+					c.Touched = c18UnhexAll(l.Touched)
 					for k := range c.After {
 						c.After[k].P = unhx(c.After[k].P)
 					}
@@ -722,6 +751,8 @@ func c18Judge(a vh.Args, o *vh.Oracle, r *vh.Result, c *c18Case) error {
 	if len(c.Outside) > 0 {
 		cls := "untar/escape"
 		switch {
+		case c.Planted != "":
+			cls = "untar/intermediate-path"
 		case c18LeafRoot(c.Elems):
 			cls = "untar/root-entry-not-a-directory"
 		case c.Nameless:
@@ -760,6 +791,9 @@ func c18Judge(a vh.Args, o *vh.Oracle, r *vh.Result, c *c18Case) error {
 	for _, pr := range c.Pre {
 		if c.Dest != "" {
 			break
+		}
+		for d := path.Dir(pr.Path); d != "." && d != "/"; d = path.Dir(d) { // parents (appended in reverse, the builder creates them anyway; this sets their mode)
+			fsTok = append(fsTok, "d:"+hx(dest+"/"+d)+":493")
 		}
 		switch pr.Kind {
 		case "d":
@@ -800,6 +834,7 @@ func c18Judge(a vh.Args, o *vh.Oracle, r *vh.Result, c *c18Case) error {
 			mnodes = np[0] + " " + strings.Join(mt, ",")
 		}
 		if mnodes != c.Nodes {
+			c.Broken = true
 			r.Fail("corr", "corr:C18/nodes", fmt.Sprintf("%s: ArchiveDecoder yields %q, model %q", c.Shape, c.Nodes, mnodes), c)
 			return nil
 		}
@@ -821,11 +856,13 @@ func c18Judge(a vh.Args, o *vh.Oracle, r *vh.Result, c *c18Case) error {
 		// os.RemoveAll opens the parent of dst; if that is a FIFO the open blocks for ever.
 		// The model has no blocking calls: the same step is a write error there.
 		if mclass != "error" {
+			c.Broken = true
 			r.Fail("corr", "corr:C18/result", fmt.Sprintf("model %s, implementation hangs on %s", parts[0], c.Shape), c)
 		}
 		return nil
 	}
 	if mclass != c.Class {
+		c.Broken = true
 		r.Fail("corr", "corr:C18/result", fmt.Sprintf("model %s, implementation %s (%s) on %s", parts[0], c.Class, c.Err, c.Shape), c)
 		return nil
 	}
@@ -885,6 +922,7 @@ func c18Judge(a vh.Args, o *vh.Oracle, r *vh.Result, c *c18Case) error {
 		}
 	}
 	if len(diff) > 0 {
+		c.Broken = true
 		sort.Strings(diff)
 		r.Fail("corr", "corr:C18/final-tree", fmt.Sprintf("%s: %v", c.Shape, diff[:min(len(diff), 4)]), c)
 		return nil
@@ -905,6 +943,7 @@ func c18Judge(a vh.Args, o *vh.Oracle, r *vh.Result, c *c18Case) error {
 			}
 		}
 		if !okp {
+			c.Broken = true
 			r.Fail("corr", "corr:C18/touched", fmt.Sprintf("%s: implementation changed %s, model touched %v", c.Shape, p, touched), c)
 			break
 		}
@@ -928,16 +967,23 @@ func c18Judge(a vh.Args, o *vh.Oracle, r *vh.Result, c *c18Case) error {
 // c18PrepareChroot puts the CLI, the shared objects it needs and /dev/null into the
 // directory the children chroot into.
 func c18PrepareChroot(work string) bool {
-	bin := os.Getenv("VH_DESYNC")
-	b, err := os.ReadFile(bin)
-	if err != nil {
-		return false
-	}
-	if os.WriteFile(filepath.Join(work, "desync"), b, 0755) != nil {
+	if !c18Install(work, os.Getenv("VH_DESYNC"), "desync") {
 		return false
 	}
 	os.MkdirAll(filepath.Join(work, "dev"), 0755) // go-fuse's init opens /dev/null
 	syscall.Mknod(filepath.Join(work, "dev", "null"), syscall.S_IFCHR|0666, 1<<8|3)
+	return true
+}
+
+// c18Install copies a binary (as /<name>) and the shared objects it needs into the chroot directory.
+func c18Install(work, bin, name string) bool {
+	b, err := os.ReadFile(bin)
+	if err != nil {
+		return false
+	}
+	if os.WriteFile(filepath.Join(work, name), b, 0755) != nil {
+		return false
+	}
 	out, err := exec.Command("ldd", bin).CombinedOutput()
 	if err != nil { // "not a dynamic executable"
 		return true
@@ -1007,6 +1053,92 @@ func runC18(a vh.Args, o *vh.Oracle, r *vh.Result) error {
 			if err := c18Judge(a, o, r, c); err != nil {
 				return err
 			}
+		}
+	}
+	return c18Discovery(a, o, r, cases, len(cases))
+}
+
+// c18Discovery: see c18disc.go.  Runs on every case whose correspondence broke (the model has
+// no intermediate names, so a writer that uses one shows up there first) and on a sample of
+// successful runs; plants links at what it finds.
+func c18Discovery(a vh.Args, o *vh.Oracle, r *vh.Result, cases []*c18Case, base int) error {
+	if r.Extra == nil {
+		r.Extra = map[string]interface{}{}
+	}
+	r.Extra["intermediate_paths_discovered"] = 0
+	r.Extra["discovery_runs"] = 0
+	r.Extra["planted_link_runs"] = 0
+	st, err := exec.LookPath("strace")
+	if err != nil || !c18Install(a.Work, st, "strace") {
+		r.Note("strace is not available: no discovery of intermediate paths")
+		return nil
+	}
+	sample, broken := 40, 12
+	if a.Tier == "thorough" {
+		sample, broken = 400, 60
+	}
+	var disc []*c18Case
+	for _, c := range cases {
+		if c.Broken && broken > 0 && c.Class != "panic" {
+			broken--
+			v := *c
+			v.Discover, v.Via, v.Shape = true, "strace", "discover:"+c.Shape
+			disc = append(disc, &v)
+		}
+	}
+	for _, c := range cases {
+		if sample == 0 {
+			break
+		}
+		if c.Class == "ok" && !c.Broken && len(c.Changed) >= 3 && c.Planted == "" {
+			sample--
+			v := *c
+			v.Discover, v.Via, v.Shape = true, "strace", "discover:"+c.Shape
+			disc = append(disc, &v)
+		}
+	}
+	if err := c18RunBatch(a, disc, base); err != nil {
+		return err
+	}
+	var planted []*c18Case
+	seen := map[string]bool{}
+	nInter, nSeen := 0, 0
+	for _, c := range disc {
+		nSeen += len(c.Touched)
+		if c.Class == "harness" {
+			r.Note("discovery run failed: %s", c.Err)
+			continue
+		}
+		if err := c18Judge(a, o, r, c); err != nil {
+			return err
+		}
+		for _, rel := range c18Intermediate(c) {
+			nInter++
+			// the same kind of intermediate name (suffix/prefix around an entry name) needs only a few plants
+			key := rel
+			if len(seen) >= 6 && !seen[key] {
+				continue
+			}
+			seen[key] = true
+			if len(planted) < 240 {
+				planted = append(planted, c18PlantVariants(c, rel)...)
+			}
+		}
+	}
+	r.Extra["discovery_runs"] = len(disc)
+	r.Extra["intermediate_paths_discovered"] = nInter
+	r.Extra["paths_named_by_mutating_calls"] = nSeen
+	r.Extra["planted_link_runs"] = len(planted)
+	r.Note("discovery: %d runs under strace naming %d paths under the destination in mutating calls, %d intermediate paths (paths under the destination that a mutating system call names and that are not dest joined with an entry path), %d runs with a link planted there", len(disc), nSeen, nInter, len(planted))
+	if len(planted) == 0 {
+		return nil
+	}
+	if err := c18RunBatch(a, planted, base+len(disc)); err != nil {
+		return err
+	}
+	for _, c := range planted {
+		if err := c18Judge(a, nil, r, c); err != nil {
+			return err
 		}
 	}
 	return nil
